@@ -75,10 +75,17 @@ def build_events():
     ]
     ev += [("dev", d) for d in DEVICES]
     ev += [("devkw", "tpu"), ("devfn", "cuda:0"), ("devfn", "cpu"), ("devmap", "tpu"), ("devdflt", "tpu")]
+    # ties: a plain set to the very value a later with-block writes (an undo record must not depend on whether the value
+    # changes), and equal values of another type (True == 1 == 1.0: the LAST one written must come back, type included)
+    ev += [("set", "vb", 5), ("set", "a.b", 5), ("set", "vb", True), ("set", "vb", 1.0)]
     withs = [{"vb": 5}, {"a.b": 5}, {"w.new": 5}, {"x_y": 5}, {"vb": 5, "a.c": 6}]
-    inners = [None, ("set", "q", 1), "same"]
+    # inside the block: nothing / a disjoint key / the same leaf through a plain set / the other entry points that write
+    # configuration (update_defaults on the first key of the block, refresh)
+    inners = [None, ("set", "q", 1), "same", "dflt_same", ("refresh",)]
     for w in withs:
         for i in inners:
+            if i == ("refresh",) and any(k.startswith("w.") for k in w):
+                continue  # refresh drops the freshly inserted parent; what exit then restores is not prescribed
             ev.append(("with", w, i))
     # one call writing the same entry twice: two spellings, mapping + keyword form, dotted key + parent mapping
     ev += [
@@ -239,6 +246,15 @@ def model_get(m, key):
         return SENT
 
 
+def typed(v):
+    """Values with their types: True, 1 and 1.0 are equal but not the same configuration value."""
+    if isinstance(v, dict):
+        return {k: typed(x) for k, x in v.items()}
+    if isinstance(v, (list, tuple)):
+        return (type(v).__name__, [typed(x) for x in v])
+    return (type(v).__name__, v)
+
+
 def observe_and_compare(I, M, where, fails):
     """get() for every key of the universe in both spellings vs the model; whole-tree comparison."""
     for k in UNIVERSE:
@@ -247,10 +263,10 @@ def observe_and_compare(I, M, where, fails):
             exp = model_get(M, spelled)
             if got[0] == "ok":
                 got = ("ok", norm_tree(got[1]))
-            if got != exp:
+            if typed(got) != typed(exp):
                 fails.append(({"relation": "get_equals_model"}, f"{where}: get({spelled!r}) = {got!r}, reference model says {exp!r}"))
                 return
-    if norm_tree(I.C.config) != M.cfg:
+    if typed(norm_tree(I.C.config)) != typed(M.cfg):
         fails.append(({"relation": "tree_equals_model"}, f"{where}: config tree {norm_tree(I.C.config)!r} != model {M.cfg!r}"))
     # no key may be stored twice under two spellings
     def dup(d, path=""):
@@ -353,41 +369,61 @@ def _apply_event(I, M, ev, fails, where):
         kw = ev[3] if len(ev) > 3 else {}
         writes = list(w.items()) + [(k.replace("__", "."), v) for k, v in kw.items()]
         keys = [k for k, _ in writes]
-        pre = {k: model_get(M, k) for k in keys}
-        pre_top = {k.split(".")[0]: copy.deepcopy(model_get(M, k.split(".")[0])) for k in keys}
-        M_in = M.copy()
+        pre = {k: copy.deepcopy(model_get(M, k)) for k in keys}
+        # the model keeps the undo log the documentation describes: per write, the old value of the leaf, or — when an
+        # ancestor did not exist — the fact that this ancestor was inserted; exit undoes the log newest-first
+        record = []
         for k, v in writes:
-            M_in.set(k, v)
+            parts = [norm(p_) for p_ in k.split(".")]
+            d, missing = M.cfg, None
+            for i_, p_ in enumerate(parts):
+                if not isinstance(d, dict) or p_ not in d:
+                    missing = parts[: i_ + 1]
+                    break
+                d = d[p_]
+            record.append(("insert", missing, None) if missing is not None else ("replace", parts, copy.deepcopy(d)))
+            M.set(k, v)
+        if inner == "same":
+            inner_ev = ("set", keys[0], 9)
+        elif inner == "dflt_same":
+            nested = 10
+            for p_ in reversed(keys[0].split(".")):
+                nested = {p_: nested}
+            inner_ev = ("dflt", nested)
+        else:
+            inner_ev = inner
         try:
             with C.set(copy.deepcopy(w), **copy.deepcopy(kw)):
                 for k in keys:
                     got = I.get(k)
                     g = ("ok", norm_tree(got[1])) if got[0] == "ok" else got
-                    if g != model_get(M_in, k):
-                        fails.append(({"relation": "with_sets_inside"}, f"{where}: inside `with set({w}, **{kw})` get({k!r}) = {got!r}, last writer says {model_get(M_in, k)!r}"))
-                if inner == "same":
-                    C.set({keys[0]: 9})
-                elif inner is not None:
-                    C.set({inner[1]: inner[2]})
-                    M.set(inner[1], inner[2])
+                    if typed(g) != typed(model_get(M, k)):
+                        fails.append(({"relation": "with_sets_inside"}, f"{where}: inside `with set({w}, **{kw})` get({k!r}) = {got!r}, last writer says {model_get(M, k)!r}"))
+                if inner_ev is not None:
+                    _apply_event(I, M, inner_ev, fails, where + f" inside with set({w})")
         except TypeError as e:
             fails.append(({"relation": "with_protocol"}, f"{where}: `with config.set({w}, **{kw})` raised {e!r}"))
             # the model follows what a failed `with` leaves behind: the plain assignments
-            for k, v in writes:
-                M.set(k, v)
             return
-        # after exit: every key written by the with-set has its pre-entry value again
-        for k in keys:
-            top = k.split(".")[0]
-            if pre_top[top] == SENT:
-                M.cfg.pop(norm(top), None)
+        for op, parts, old in reversed(record):
+            d = M.cfg
+            if op == "replace":
+                for p_ in parts[:-1]:
+                    d = d.setdefault(p_, {})
+                d[parts[-1]] = old
             else:
-                M.cfg[norm(top)] = copy.deepcopy(pre_top[top][1])
+                for p_ in parts[:-1]:
+                    d = d.get(p_) if isinstance(d, dict) else None
+                    if d is None:
+                        break
+                else:
+                    d.pop(parts[-1], None)
+        # after exit: every key written by the with-set has its pre-entry value again, whatever happened inside
         for k in keys:
             got = I.get(k)
             g = ("ok", norm_tree(got[1])) if got[0] == "ok" else got
-            if g != pre[k]:
-                fails.append(({"relation": "with_restores_on_exit"}, f"{where}: after `with set({w}, **{kw})` (inner={inner}) get({k!r}) = {got!r}, before entry it was {pre[k]!r}"))
+            if typed(g) != typed(pre[k]):
+                fails.append(({"relation": "with_restores_on_exit", "inner": "none" if inner is None else (inner if isinstance(inner, str) else str(inner[0]))}, f"{where}: after `with set({w}, **{kw})` (inner={inner}) get({k!r}) = {got!r}, before entry it was {pre[k]!r}"))
     else:
         raise ValueError(ev)
 
